@@ -124,6 +124,11 @@ pub fn run(p: &Params, rep: &mut Report) {
         let n = if p.thorough { super::scale::N_THOROUGH } else { super::scale::N_QUICK };
         super::scale::c18(rep, n, p.seed);
     }
+    if p.shard == 6 {
+        for centre in [256, 65536] {
+            super::ladder::traversal_gap(rep, super::ladder::Trav::StartChar, centre, p.seed);
+        }
+    }
     let stride = 1;
     for_tiny_programs(p, rep, stride, p.size(150, 3000), |prog, seed, rep| check_program(prog, seed, p.thorough, rep));
     let n = p.size(250, 2500);
